@@ -67,3 +67,7 @@ Qed.
 (* the translator found the source shape it extracts terrapin_texts from (otherwise gen/Tables.v carries fallback values and this lemma fails) *)
 Lemma tie_extract_ok_terrapin_texts : extract_ok_terrapin_texts = true.
 Proof. reflexivity. Qed.
+
+(* which marker counts for which role: the test of the current source (T1c translation) is the model's has_marker *)
+Lemma tie_has_marker : forall ca k, has_marker ca k = src_has_marker ca (kl_kex k).
+Proof. intros [|] k; unfold has_marker, src_has_marker, marker_c, marker_s; cbn [andb orb negb]; [rewrite orb_false_r|]; reflexivity. Qed.
